@@ -106,6 +106,12 @@ func genFlow(prop string, r *rng, n int, tier string, emit func(string)) {
 		emit("tree 23 1 N sync 4 2 0 0 100 0 0 0 1 0 0 2 0 N sync 1 1 1 0 100 0 0 0 1 0 0 0 0 N sync 1 2 0 0 100 0 0 0 1 0 0 0 0 ; stream 50 ; opts stop=- gm=4 gate=1")
 	}
 	for i := 0; i < n; i++ {
+		if prop == "C04" && r.chance(20) {
+			// race round: many fast parent workers deliver into a stalled discarding child with a tiny buffer
+			emit(fmt.Sprintf("tree %d 1 N %s %d 4 0 0 100 0 0 0 2 0 0 1 0 N sync 1 %d 1 0 100 0 0 0 1 0 0 0 0 ; stream %d ; opts stop=- gm=16 gate=1",
+				r.intn(100000), r.pickS("sync", "fanout"), r.pick(4, 8), r.pick(1, 1, 2), r.pick(12, 24, 48)))
+			continue
+		}
 		g := &flowGen{r: r, prop: prop}
 		nroots := r.intn(3) + 1
 		for j := 0; j < nroots; j++ {
